@@ -68,6 +68,13 @@ func evaluate(h *hub, c tcase, recs []reqRec, res *caseResult) {
 	firstStepOfSerial := map[string]int{}
 	chains := map[string][]reqRec{}
 	var order []string
+	// spelling of the Location that sent the client to hop n+1 of a chain (part of the trigger: a coordinate of the case)
+	spelledBy := map[string]string{}
+	for _, rec := range recs {
+		if rec.HopSpec != nil && rec.HopSpec.Spell != "" {
+			spelledBy[fmt.Sprintf("%s#%d", rec.chainID(), rec.Hop+1)] = rec.HopSpec.Spell
+		}
+	}
 	for _, rec := range recs {
 		name := rec.Site
 		if name == "" {
@@ -79,7 +86,7 @@ func evaluate(h *hub, c tcase, recs []reqRec, res *caseResult) {
 			res.count("responses_401", 1)
 		}
 		host, port := splitHostPort(rec.HostHdr)
-		recvIdx, recvKnown := h.byAuthority[rec.Scheme+"://"+rec.HostHdr]
+		recvIdx, recvKnown := h.siteOf(rec.Scheme, rec.HostHdr)
 		var vals []string
 		vals = append(vals, rec.Auth...)
 		if rec.TokenQ != "" {
@@ -112,11 +119,19 @@ func evaluate(h *hub, c tcase, recs []reqRec, res *caseResult) {
 				}
 				rel := "other-host"
 				if t.Port != "*" {
-					if ci, ok := h.byAuthority[t.Scheme+"://"+net.JoinHostPort(t.Host, t.Port)]; ok && recvKnown {
+					hp := t.Host
+					if t.Port != "default" {
+						hp = net.JoinHostPort(t.Host, t.Port)
+					}
+					if ci, ok := h.siteOf(t.Scheme, hp); ok && recvKnown {
 						rel = relIdx(ci, recvIdx)
 					}
 				}
-				add("credential-sent-to-foreign-origin", rec.Role+"/"+via+rel+"/"+t.Src,
+				trig := rec.Role + "/" + via + rel + "/" + t.Src
+				if sp := spelledBy[fmt.Sprintf("%s#%d", rec.chainID(), rec.Hop)]; sp != "" {
+					trig = "location-spelling/" + sp + "/" + via + rel + "/" + t.Src
+				}
+				add("credential-sent-to-foreign-origin", trig,
 					fmt.Sprintf("%s %s%s received by %s://%s (hop %d of its chain) carries a %s credential issued for %s://%s:%s", rec.Method, rec.Path, q(rec.Query), rec.Scheme, rec.HostHdr, rec.Hop, t.Src, t.Scheme, t.Host, t.Port), []reqRec{rec})
 			}
 		}
@@ -215,7 +230,7 @@ func evaluate(h *hub, c tcase, recs []reqRec, res *caseResult) {
 					res.count(fmt.Sprintf("redirect_status_%d", r.HopSpec.Status), 1)
 					res.count("redirect_form_"+form, 1)
 					var rel string
-					from, known := h.byAuthority[r.Scheme+"://"+r.HostHdr]
+					from, known := h.siteOf(r.Scheme, r.HostHdr)
 					targetsHTTP := false
 					switch form {
 					case "malformed":
@@ -236,21 +251,52 @@ func evaluate(h *hub, c tcase, recs []reqRec, res *caseResult) {
 					if r.Scheme == "https" && targetsHTTP && !followed {
 						res.count("refused_https_to_http_observed", 1)
 					}
+					if sp := r.HopSpec.Spell; sp != "" {
+						// per spelling: emitted / followed / (https->http) not followed; written raw = white space really on the wire
+						for _, a := range strings.Split(sp, "+") {
+							res.count("location_spelling_"+a+"_emitted", 1)
+							res.count("location_spelling_"+a+"_rel_"+rel, 1)
+							if followed {
+								res.count("location_spelling_"+a+"_followed", 1)
+							}
+							if r.Scheme == "https" && targetsHTTP && !followed {
+								res.count("location_spelling_"+a+"_https_to_http_not_followed", 1)
+							}
+						}
+						if r.Note == "raw field value" {
+							res.count("location_spelling_white_space_on_the_wire", 1)
+						}
+						if hasAtom(sp, "trailing-dot") && followed {
+							res.count("location_spelling_trailing-dot_target_reached", 1)
+						}
+					}
 				}
 				if i == 0 {
 					continue
 				}
 				p := tv[i-1]
 				if r.Hop == p.Hop+1 && p.Scheme == "https" && r.Scheme == "http" {
-					st, form := 0, "?"
+					st, form, sp := 0, "?", ""
 					if p.HopSpec != nil {
-						st, form = p.HopSpec.Status, p.HopSpec.Form
+						st, form, sp = p.HopSpec.Status, p.HopSpec.Form, p.HopSpec.Spell
 					}
-					add("https-to-http-redirect-followed", fmt.Sprintf("%s/%d/%s", r.Role, st, form),
+					trig := fmt.Sprintf("%s/%d/%s", r.Role, st, form)
+					if sp != "" {
+						trig = "location-spelling/" + sp
+					}
+					add("https-to-http-redirect-followed", trig,
 						fmt.Sprintf("redirect from https://%s to http://%s was followed (%s %s)", p.HostHdr, r.HostHdr, r.Method, r.Path), []reqRec{p, r})
 				}
 				if r.Scheme == "http" && tv[0].Scheme == "https" && (len(r.Auth) > 0 || r.TokenQ != "") {
-					add("credential-on-plain-http-after-https", r.Role, fmt.Sprintf("authenticated %s %s arrived on plain http://%s in a chain that started at https://%s", r.Method, r.Path, r.HostHdr, tv[0].HostHdr), []reqRec{tv[0], r})
+					trig := r.Role
+					for j := 0; j < i; j++ {
+						// the hop that left https, if its Location was spelled specially
+						if tv[j].Scheme == "https" && tv[j+1].Scheme == "http" && tv[j].HopSpec != nil && tv[j].HopSpec.Spell != "" {
+							trig = "location-spelling/" + tv[j].HopSpec.Spell
+							break
+						}
+					}
+					add("credential-on-plain-http-after-https", trig, fmt.Sprintf("authenticated %s %s arrived on plain http://%s in a chain that started at https://%s", r.Method, r.Path, r.HostHdr, tv[0].HostHdr), []reqRec{tv[0], r})
 				}
 			}
 		}
